@@ -1,6 +1,6 @@
 import Driver.F64Ops
-import ScionTime.Model.UnixutilFloat
-open Driver ScionTime.F64 ScionTime.UnixutilFloat
+import ScionTime.Model.F64P_UnixutilFloat
+open Driver ScionTime.F64 ScionTime.F64P_UnixutilFloat
 
 def inInt64 (i : Int) : Bool := -9223372036854775808 ≤ i && i ≤ 9223372036854775807
 
